@@ -144,7 +144,7 @@ META["C01"] = dict(
     "configuration); distinct by hash of that tuple; non-trivial = the source parse was accepted so there is a configuration "
     "to round trip.",
     gates={
-        "mon.route.dump.json": g(300, 3000),
+        "mon.route.dump.json": g(300, 3000), "st.ordered_dict_given_for_dict_argument": g(15, 150),
         "mon.route.dump.skip_default": g(300, 3000),
         "mon.route.dump.yaml": g(200, 2000),
         "mon.route.print_config": g(100, 1000),
